@@ -79,7 +79,7 @@ theorem augment_preserves_feasible (h : N.WF) {f : FlowT} (hc : N.CapOK f) (hf :
 the integer value by ≥ 1 and the value is bounded by the capacity out of the source; each BFS
 ends within `2·|V| + 2` pops. -/
 theorem ek_terminates (h : N.WF) : N.maxFlow.done = true :=
-  (N.loop_spec h _ [] 0 0 (0, 0) (LInv.init N h) (by
+  (N.loop_spec h _ [] 0 0 {} (LInv.init N h) (by
     have := N.value_le_cutCap h.nodup h.t_mem (S := [N.s]) (by simp)
       (by simpa using h.s_ne_t.symm) (LInv.init N h).feasible
     omega)).done
@@ -88,7 +88,7 @@ theorem ek_terminates (h : N.WF) : N.maxFlow.done = true :=
 a saturated cut for the returned flow. -/
 theorem ek_certifies (h : N.WF) :
     N.s ∈ N.maxFlow.vis ∧ N.t ∉ N.maxFlow.vis ∧ N.Saturated N.maxFlow.flow.get N.maxFlow.vis := by
-  have c := N.loop_spec h ((N.cutCap [N.s]).toNat + 1) [] 0 0 (0, 0) (LInv.init N h) (by
+  have c := N.loop_spec h ((N.cutCap [N.s]).toNat + 1) [] 0 0 {} (LInv.init N h) (by
     have := N.value_le_cutCap h.nodup h.t_mem (S := [N.s]) (by simp)
       (by simpa using h.s_ne_t.symm) (LInv.init N h).feasible
     omega)
@@ -105,12 +105,12 @@ theorem max_flow_correct (h : N.WF) :
     (∀ g, N.Feasible g → N.value g ≤ N.maxFlow.value) ∧
     (∀ S', N.s ∈ S' → N.t ∉ S' → N.maxFlow.value ≤ N.cutCap S') ∧
     N.chkMaxFlow N.maxFlow.flow N.maxFlow.vis N.maxFlow.value = true := by
-  have c := N.loop_spec h ((N.cutCap [N.s]).toNat + 1) [] 0 0 (0, 0) (LInv.init N h) (by
+  have c := N.loop_spec h ((N.cutCap [N.s]).toNat + 1) [] 0 0 {} (LInv.init N h) (by
     have := N.value_le_cutCap h.nodup h.t_mem (S := [N.s]) (by simp)
       (by simpa using h.s_ne_t.symm) (LInv.init N h).feasible
     omega)
   obtain ⟨e1, e2, e3⟩ := N.cut_cert h.nodup h.t_mem c.feasible c.s_mem c.t_not_mem c.saturated
-  have cv : N.value (N.loop ((N.cutCap [N.s]).toNat + 1) [] 0 0 (0, 0)).flow.get = N.maxFlow.value := c.value
+  have cv : N.value (N.loop ((N.cutCap [N.s]).toNat + 1) [] 0 0 {}).flow.get = N.maxFlow.value := c.value
   refine ⟨c.done, c.feasible, c.value, ?_, ?_, ?_, ?_⟩
   · rw [← cv]; exact e1
   · intro g hg; rw [← cv]; exact e2 g hg
